@@ -1277,6 +1277,9 @@ func blockReturnsErrorDeepLocal(b *ssa.BasicBlock) bool {
 				return false
 			}
 			k, isConst := ret.Results[len(ret.Results)-1].(*ssa.Const)
+			if isConst && isRangeFuncBody(b.Parent()) && k.Value != nil && k.Value.String() == "true" {
+				return false // `continue` in the body of a range-over-func loop
+			}
 			return !(isConst && k.IsNil())
 		}
 		if len(b.Succs) != 1 {
